@@ -15,7 +15,7 @@ theorem allDig_range {r : Nat} {s : List Nat} (h : ∀ x ∈ s, IsDig r x) (i : 
   intro n _ hn
   exact ⟨s[n], by simp [hn], h _ (List.getElem_mem hn)⟩
 
-theorem minv_init (c : Cfg) (cx : Ctx c) : MInv c 0 (u64Step c.feats c.mantissaRadix) := by
+theorem minv_init (c : Cfg) (_cx : Ctx c) : MInv c 0 (u64Step c.feats c.mantissaRadix) := by
   refine ⟨Nat.le_refl _, ?_⟩
   simp
 
